@@ -95,6 +95,8 @@ impl CatchGradualDifficulty {
             half_catcher_width,
             palpable_objects.iter(),
         );
+        #[cfg(rosu_pp_verif)]
+        crate::verif::view_probe::report_slice(1, 2, &diff_objects);
 
         let count = count.into_gradual();
         let movement = Movement::new(half_catcher_width, clock_rate);
